@@ -19,7 +19,7 @@ use std::collections::{BTreeMap, BTreeSet};
 
 // ------------------------------------------------------------------------------ C14
 
-pub const C14_RULE: &str = "positions along generated games driven through Game (apply + toggle_turn as the game loops do; set-up seeds via Game::from_board): at each sampled position ALL 4096 from/to coordinate pairs are submitted (rejections on one Game, each acceptance on its own Game): accepted <=> the reference has a legal move with that from/to; an accepted pair must produce the reference successor (queen for promotions), leave the turn to the caller and make most_recent_move() that move; every reference label of every legal move must be accepted by apply_chess_move_from_raw_algebraic_notation and play exactly that move; near-miss strings (dropped/added 'x', '+', '#', wrong/extra/missing disambiguation, neighbouring targets, changed/removed promotion suffix, lower-case piece letters, labels legal only for the other side or only in the previous position, garbage) are judged three-valued: a string denoting no legal move even under a lenient reading must be rejected, strings in between may go either way but if accepted must play a move they denote; every rejection must leave the full board snapshot and most_recent_move() unchanged. Sessions: one Game object is driven through a whole generated game (shuffle-biased policy on tiny and opening positions, so placements recur with either side to move), listing the labels at every turn (compared with the reference), typing moves alternately by label and by coordinate pair and interleaving labels that belong to the other side only (must be rejected without effect). The command-line level is exercised by driving the built `chess pvp` binary over stdin with generated and scripted games (labels incl. castling with check), parsing the printed turn and board. Non-trivial = position offers a promotion, en passant, castle or a notation ambiguity; distinct = position fingerprint.";
+pub const C14_RULE: &str = "positions along generated games driven through Game (apply + toggle_turn as the game loops do; set-up seeds via Game::from_board): at each sampled position ALL 4096 from/to coordinate pairs are submitted (rejections on one Game, each acceptance on its own Game): accepted <=> the reference has a legal move with that from/to; an accepted pair must produce the reference successor (queen for promotions), leave the turn to the caller and make most_recent_move() that move; every reference label of every legal move must be accepted by apply_chess_move_from_raw_algebraic_notation and play exactly that move; near-miss strings (dropped/added 'x', '+', '#', wrong/extra/missing disambiguation, neighbouring targets, changed/removed promotion suffix, lower-case piece letters, labels legal only for the other side or only in the previous position, garbage) are judged three-valued: a string denoting no legal move even under a lenient reading must be rejected, strings in between may go either way but if accepted must play a move they denote; every rejection must leave the full board snapshot and most_recent_move() unchanged. Suffixed and special labels: on thousands of positions biased to checks by en passant / promotion / castling / double steps and to ambiguities, every label with a '+' or '#' or naming a special move is typed and must play its move. Sessions: one Game object is driven through a whole generated game (shuffle-biased policy on tiny and opening positions, so placements recur with either side to move), listing the labels at every turn (compared with the reference), typing moves alternately by label and by coordinate pair and interleaving labels that belong to the other side only (must be rejected without effect). The command-line level is exercised by driving the built `chess pvp` binary over stdin with generated and scripted games (labels incl. castling with check), parsing the printed turn and board. Non-trivial = position offers a promotion, en passant, castle or a notation ambiguity; distinct = position fingerprint.";
 
 #[derive(Clone, Debug, Serialize, Deserialize)]
 pub struct TypedCase {
@@ -139,7 +139,7 @@ fn c14_labels_only(pos: &Pos, st: &mut Stats, suffixed_only: bool) -> Result<u32
     let mut n = 0;
     for m in &legal {
         let label = notation::san(pos, m, &legal);
-        if suffixed_only && !(label.ends_with('+') || label.ends_with('#')) {
+        if suffixed_only && !(label.ends_with('+') || label.ends_with('#') || m.kind != Kind::Std) {
             continue;
         }
         n += 1;
@@ -714,6 +714,33 @@ fn run_cli_scripted(_env: &Env, agg: &mut Stats) -> Option<Violation> {
     v
 }
 
+/// Many positions, few strings each: every label that carries a check / mate suffix or names a
+/// special move (castling, en passant, promotion) must be accepted and play exactly its move.
+pub struct C14Labels;
+impl Prop for C14Labels {
+    type Case = String;
+    fn name(&self) -> &'static str {
+        "C14/suffixed-and-special-labels"
+    }
+    fn max_shrink_iters(&self) -> u32 {
+        300
+    }
+    fn strategy(&self, _tier: Tier) -> BoxedStrategy<String> {
+        super::pos::notation_position()
+    }
+    fn cases(&self, tier: Tier) -> u32 {
+        tier.pick(2_400, 60_000)
+    }
+    fn test(&self, fen: &String, st: &mut Stats) -> TestResult {
+        let pos = Pos::from_fen(fen).map_err(Failure::new)?;
+        let n = c14_labels_only(&pos, st, true)?;
+        if n > 0 {
+            st.nontrivial(pos.fingerprint(), || json!({"fen": pos.fen(), "labels_typed": n}));
+        }
+        Ok(())
+    }
+}
+
 /// One Game object lives through a whole session (as in the play loops): labels are listed at
 /// every turn and the moves are typed alternately as labels and coordinate pairs; shuffling
 /// policies make placements recur with either side to move.
@@ -854,6 +881,7 @@ impl Prop for Session {
 pub fn c14_checks() -> Vec<Box<dyn DynCheck>> {
     vec![
         Box::new(C14Typed),
+        Box::new(C14Labels),
         Box::new(Session {
             name: "C14/session",
             listings_only: false,
